@@ -356,7 +356,7 @@ def main():
                         known.append((kf, "S", dict(obligation="native lattice family: " + h.get("what", "")[:300])))
                 else:
                     fresh.append(h)
-            s_bounded.append(dict(harness="native family %s (%s) seed %d" % (pid, "replay/py/c20_scenarios.py on the real oxmpl_py module" if pid == "C20" else "replay/src/spaces.rs", sd), bound=P["bounded_scenarios"], status="pass" if not fresh else "fail", reports=len(hits)))
+            s_bounded.append(dict(harness="native family %s (%s) seed %d" % (pid, "replay/py/c20_scenarios.py on the real oxmpl_py module" if pid == "C20" else "replay/py/c19_scenarios.py + oxmpl-replay pyref" if pid == "C19" else "replay/src/spaces.rs", sd), bound=P["bounded_scenarios"], status="pass" if not fresh else "fail", reports=len(hits)))
             if fresh:
                 s_violations.append((sd, fresh))
 
